@@ -121,6 +121,7 @@ type FnCtx struct {
 	skipBody bool
 	usedSpecs map[string]bool
 	pureMode  bool
+	pureSafety []Term // pureMode: guarded run-time-safety conditions met while translating the body
 	pkgOverride *types.Package
 	initPhase   bool
 	lastCall    map[string]Value
@@ -254,6 +255,15 @@ var safetyKinds = map[string]bool{"pre": true, "pre-nopanic": true, "pre-global"
 
 func (fc *FnCtx) oblige(kind, desc string, pos token.Pos, goal Term) *Oblig {
 	if fc.pureMode {
+		// translating a helper as a term: its run-time-safety conditions are collected (guarded by
+		// the path to them) and become one obligation at every call site (helperSafety)
+		if safetyKinds[kind] && goal.S != "true" {
+			guard := TTrue
+			if r, ok := fc.reach[fc.curBlk]; ok {
+				guard = r
+			}
+			fc.pureSafety = append(fc.pureSafety, Implies(guard, goal))
+		}
 		return &Oblig{}
 	}
 	if fc.c != nil && fc.c.SkipSafety && safetyKinds[kind] {
@@ -422,16 +432,19 @@ func (fc *FnCtx) analyze() {
 		hs = append(hs, h)
 	}
 	sort.Ints(hs)
+	ords := fc.eng.alignLoops(fc.fn, len(hs))
+	bound := map[int]bool{}
 	for i, h := range hs {
-		fc.loops[h].ord = i
+		fc.loops[h].ord = ords[i]
+		bound[ords[i]] = true
 		if fc.c != nil {
-			fc.loops[h].lc = fc.c.Loops[i]
+			fc.loops[h].lc = fc.c.Loops[ords[i]]
 		}
 	}
 	if fc.c != nil {
 		for k := range fc.c.Loops {
-			if k >= len(hs) {
-				fc.unbound = append(fc.unbound, fmt.Sprintf("loop %d (function has %d loops)", k, len(hs)))
+			if !bound[k] {
+				fc.unbound = append(fc.unbound, fmt.Sprintf("loop %d (function has %d loops, none corresponds to it)", k, len(hs)))
 			}
 		}
 	}
